@@ -3,6 +3,7 @@ C16 — text tables are laid out without loss and agree with the CSV rendering.
 Property theorems only; helper lemmas live in Proofs/Lemmas/C16*.lean.
 -/
 import Proofs.Lemmas.C16Fit
+import Proofs.Lemmas.C16Header
 
 namespace C16
 open Tab.TextTab
@@ -83,5 +84,48 @@ theorem widths_fit_prefix_counterexample :
 example : ∀ c ∈ f14Table.cells,
     Fits (layoutOf true insertSortCols f14Table f14Table.cells).lm
          (layoutOf true insertSortCols f14Table f14Table.cells).ws c := by decide
+
+/-! ### keyheader_partition -/
+
+open Tab.KeyHeader in
+theorem newKeyHeader_eq_walk (keys : List (List Bytes)) (nf : Nat) :
+    newKeyHeader keys nf = walk keys nf 0 0 keys.length := by
+  unfold newKeyHeader
+  split
+  · rename_i h
+    have : keys = [] := by simpa using h
+    subst this
+    cases nf <;> simp [walk, runs]
+  · rfl
+
+open Tab.KeyHeader in
+/-- **keyheader_partition** (full strength): the forest `NewKeyHeader` returns is `Good`, i.e.
+recursively for every node list below a parent covering `[start, start+len)` (the top list:
+`[0, len(keys))`): the nodes are non-empty, contiguous, disjoint and cover exactly the parent's
+range (`Tiles` — hence they refine the level above); each node's `Field` is its level, its
+`Value` is the value of that field in EVERY key it covers; neighbouring siblings have different
+values; and the tree is exactly `nfields` levels deep. -/
+theorem keyheader_partition (keys : List (List Bytes)) (nf : Nat) :
+    Good keys nf 0 0 keys.length (newKeyHeader keys nf) := by
+  rw [newKeyHeader_eq_walk]
+  exact walk_good keys nf 0 0 keys.length
+
+open Tab.KeyHeader in
+/-- consequence used by the table header: at EVERY level k < nfields the header cells, read left
+to right as `ToText` walks them, tile `[0, len(keys))` — every column is under exactly one header
+cell per level. -/
+theorem keyheader_level_cover (keys : List (List Bytes)) (nf k : Nat) (hk : k < nf) :
+    Tiles 0 keys.length (nodeSpans (level (newKeyHeader keys nf) k)) := by
+  have hg := keyheader_partition keys nf
+  obtain ⟨fuel, rfl⟩ : ∃ fuel, nf = (fuel + k) + 1 := ⟨nf - 1 - k, by omega⟩
+  simp only [Good] at hg
+  have := level_tiles keys k fuel 1 (newKeyHeader keys (fuel + k + 1)) 0 keys.length
+    (by simpa using hg.1) (fun x hx => (hg.2.2 x hx).2.2)
+  exact this
+
+/-- non-trivial instance: the example of the doc comment of keyheader.go -/
+example : (Tab.KeyHeader.level (Tab.KeyHeader.newKeyHeader
+    [[[49], [49], [49]], [[49], [49], [50]], [[50], [50], [50]], [[50], [51], [51]]] 3) 1).map
+      (fun x => (x.value, x.start, x.len)) = [([49], 0, 2), ([50], 2, 1), ([51], 3, 1)] := by decide
 
 end C16
